@@ -11,6 +11,13 @@ The oracle (`search`) checks the PROPERTY on the real code against an independen
 here with exact rationals: direct counting per bin, the normalisation corollary, the per-event means,
 writing the returned histogram to a file and parsing it back, and a before/after snapshot of the
 particle lists (identity of every list and particle, bytes of every particle's data array).
+
+Input classes that are stratified on purpose (each gets its share of every run, see `BIN_FLAVOURS`):
+binnings in every Python-type flavour (all-int edge lists with widths 1/2/3, float lists, mixed lists,
+lists of numpy scalars, numpy arrays, tuples with int / float / mixed limits, the default), one
+long-lived `BulkObservables` object re-used for a whole call sequence alternating with fresh objects,
+several empty events including the last one, the same event list object appearing twice, events that
+are equal as lists.
 """
 import csv
 import json
@@ -36,13 +43,25 @@ ATTRS = ["px", "py", "pz", "E", "t", "z"]
 WRITE_KEY = "write-after-average (Histogram.average leaves 1-D systematic_error_)"
 ALL_COLS = ["bin_center", "bin_low", "bin_high", "distribution", "stat_err+", "stat_err-", "sys_err+", "sys_err-"]
 
+# binning flavours; the last three are container / element types the documented API (tuple or list of
+# int/float) does not accept: a TypeError/ValueError is a legitimate answer for them, a histogram is
+# checked like any other
+BIN_FLAVOURS = ["default", "tuple-int", "tuple-float", "tuple-mixed",
+                "list-int", "list-int", "list-int-unit", "list-float", "list-mixed", "list-qedges",
+                "list-npfloat-items", "list-npint-items", "ndarray-int", "ndarray-float"]
+REJECTABLE = {"list-npint-items", "ndarray-int", "ndarray-float"}
+
 
 # ------------------------------------------------------------------ real code access
-def make_particles(events):
-    """events: list of lists of [px,py,pz,E,t,z] (None = unset) -> nested list of sparkx Particles"""
+def make_particles(events, alias=None):
+    """events: list of lists of [px,py,pz,E,t,z] (None = unset) -> nested list of sparkx Particles.
+    alias[i] = j < i makes event i THE SAME list object as event j (events[i] repeats events[j]'s values)."""
     from sparkx.Particle import Particle
     out = []
-    for ev in events:
+    for i, ev in enumerate(events):
+        if alias and alias[i] is not None:
+            out.append(out[alias[i]])
+            continue
         l = []
         for spec in ev:
             p = Particle()
@@ -52,6 +71,11 @@ def make_particles(events):
             l.append(p)
         out.append(l)
     return out
+
+
+def new_bo(pl):
+    from sparkx.BulkObservables import BulkObservables
+    return BulkObservables(pl)
 
 
 def snapshot(pl):
@@ -65,10 +89,20 @@ def quantity_values(pl, name):
 
 
 def bins_arg(b):
+    """the Python object handed to the real code"""
     if b["kind"] == "default":
         return None
     if b["kind"] == "tuple":
         return (b["v"][0], b["v"][1], int(b["v"][2]))
+    fv = b.get("flavour", "")
+    if fv == "list-npfloat-items":
+        return [np.float64(x) for x in b["v"]]
+    if fv == "list-npint-items":
+        return [np.int64(x) for x in b["v"]]
+    if fv == "ndarray-int":
+        return np.array(b["v"], dtype=np.int64)
+    if fv == "ndarray-float":
+        return np.array(b["v"], dtype=np.float64)
     return list(b["v"])
 
 
@@ -91,10 +125,14 @@ def edges_contract(meth, b, edges):
     return ok
 
 
-def call_dn(pl, meth, b):
+def rejected(b, real):
+    """a container / element type outside the documented API was refused - nothing to compare"""
+    return b.get("flavour") in REJECTABLE and (real[:2] == ("err", "value") or real[:2] == ("exc", "TypeError"))
+
+
+def call_dn(pl, meth, b, bo=None):
     """-> ('ok', bins, hist_object) | ('err', 'value') | ('exc', name)"""
-    from sparkx.BulkObservables import BulkObservables
-    bo = BulkObservables(pl)
+    bo = bo if bo is not None else new_bo(pl)
     try:
         with np.errstate(all="ignore"):
             h = getattr(bo, meth)(bins_arg(b)) if b["kind"] != "default" else getattr(bo, meth)()
@@ -108,9 +146,8 @@ def call_dn(pl, meth, b):
     return ("ok", [float(x) for x in arr[0]], h)
 
 
-def call_mid(pl, meth, w, flavour, use_default=False):
-    from sparkx.BulkObservables import BulkObservables
-    bo = BulkObservables(pl)
+def call_mid(pl, meth, w, flavour, use_default=False, bo=None):
+    bo = bo if bo is not None else new_bo(pl)
     try:
         with np.errstate(all="ignore"):
             v = getattr(bo, meth)() if use_default else getattr(bo, meth)(w, flavour)
@@ -142,53 +179,119 @@ def gen_particle(rng, style):
 
 
 def gen_events(rng, allow_unset=True):
-    r = rng.random()
-    nev = 0 if r < 0.03 else 1 if r < 0.15 else rng.randint(2, 5)
+    """-> (events, alias, shape tag)"""
     style = "dyadic" if rng.random() < 0.5 else "generic"
-    evs = []
-    for _ in range(nev):
-        m = 0 if rng.random() < 0.25 else rng.randint(1, 10)
-        evs.append([gen_particle(rng, style) for _ in range(m)])
-    if allow_unset and nev and rng.random() < 0.06:
+
+    def ev(lo=1):
+        return [gen_particle(rng, style) for _ in range(rng.randint(lo, 10))]
+
+    alias = None
+    r = rng.random()
+    if r < 0.12:
+        # several empty events, the last one among them
+        n = rng.randint(3, 6)
+        evs = [ev() for _ in range(n)]
+        evs[-1] = []
+        for i in rng.sample(range(n - 1), rng.randint(1, n - 2)):
+            evs[i] = []
+        tag = "several-empty-incl-last"
+    elif r < 0.22:
+        # the same list object twice (also an empty one)
+        n = rng.randint(2, 5)
+        evs = [[] if rng.random() < 0.2 else ev() for _ in range(n)]
+        j = rng.randrange(1, n)
+        i = rng.randrange(0, j)
+        evs[j] = [list(p) for p in evs[i]]
+        alias = [None] * n
+        alias[j] = i
+        tag = "same-list-object-twice"
+    elif r < 0.32:
+        # events equal as lists (distinct objects, equal contents)
+        n = rng.randint(2, 5)
+        evs = [[] if rng.random() < 0.2 else ev() for _ in range(n)]
+        j = rng.randrange(1, n)
+        i = rng.randrange(0, j)
+        evs[j] = [list(p) for p in evs[i]]
+        if n > 2 and rng.random() < 0.4:
+            k = rng.choice([x for x in range(n) if x not in (i, j)])
+            evs[k] = [list(p) for p in evs[i]]
+        tag = "equal-events"
+    else:
+        r2 = rng.random()
+        nev = 0 if r2 < 0.03 else 1 if r2 < 0.15 else rng.randint(2, 5)
+        evs = [[] if rng.random() < 0.25 else ev() for _ in range(nev)]
+        tag = "random"
+    if allow_unset and alias is None and evs and rng.random() < 0.06:
         cand = [(i, j) for i, e in enumerate(evs) for j in range(len(e))]
         if cand:
             i, j = rng.choice(cand)
             evs[i][j][rng.choice([0, 2, 3])] = None
-    return evs
+    return evs, alias, tag
 
 
-def gen_bins(rng, meth, qvals):
-    positive = meth in ("dNdpT", "dNdmT")
-    r = rng.random()
-    flat = [q for e in qvals for q in e if q == q and abs(q) != float("inf")]
-    if r < 0.08:
-        return dict(kind="default", v=None)
-    if r < 0.45:
-        n = rng.randint(1, 8)
-        if positive:
-            lo = rng.choice([0, 0.0, 0.25, 0.5, 1])
-            hi = lo + rng.choice([1, 2, 2.5, 4, 0.75, 3])
-        else:
-            lo = rng.choice([-2, -1.0, -0.5, -3, 0, 0.25])
-            hi = lo + rng.choice([1, 2, 4, 0.75, 3, 6])
-        return dict(kind="tuple", v=[lo, hi, n])
-    k = rng.randint(1, 7)
-    pool = set()
-    while len(pool) < k + 1:
-        if flat and rng.random() < 0.45:
-            pool.add(float(rng.choice(flat)))  # an edge bit-equal to a particle's value
-        else:
-            x = rng.randint(0 if positive else -24, 40) / 8.0
-            pool.add(int(x) if x == int(x) and rng.random() < 0.5 else x)
-    vals = sorted(pool, key=float)
-    # drop float/int duplicates of the same number
+def _dedup_sorted(vals):
     out = []
-    for x in vals:
+    for x in sorted(vals, key=float):
         if not out or float(x) > float(out[-1]):
             out.append(x)
     if len(out) < 2:
         out.append(float(out[-1]) + 1.0)
-    return dict(kind="list", v=out)
+    return out
+
+
+def gen_bins(rng, meth, qvals, flavour=None):
+    positive = meth in ("dNdpT", "dNdmT")
+    flat = [q for e in qvals for q in e if q == q and abs(q) != float("inf")]
+    fv = flavour or rng.choice(BIN_FLAVOURS)
+    if fv == "default":
+        return dict(kind="default", v=None, flavour=fv)
+    if fv.startswith("tuple"):
+        n = rng.randint(1, 8)
+        if fv == "tuple-int":
+            lo = rng.choice([0, 1]) if positive else rng.choice([-3, -2, -1, 0])
+            hi = lo + rng.choice([1, 2, 3, 4, 6])
+        elif fv == "tuple-float":
+            lo = rng.choice([0.0, 0.25, 0.5, 1.0]) if positive else rng.choice([-2.0, -1.0, -0.5, 0.25, -3.0])
+            hi = lo + rng.choice([1.0, 2.5, 0.75, 3.0, 4.0])
+        else:
+            lo = rng.choice([0, 1]) if positive else rng.choice([-2, -1, 0])
+            hi = lo + rng.choice([0.75, 2.5, 3.5])
+            if rng.random() < 0.5:
+                lo, hi = float(lo) - 0.5 * (not positive), int(math.ceil(hi))
+        return dict(kind="tuple", v=[lo, hi, n], flavour=fv)
+    k = rng.randint(1, 6)
+    if fv in ("list-int", "list-int-unit", "list-npint-items", "ndarray-int"):
+        # Python ints only; widths 1, 2, 3 (at least one bin wider than 1 unless "-unit")
+        x = rng.choice([0, 0, 1]) if positive else rng.choice([-4, -3, -2, -1, 0])
+        vals = [x]
+        widths = [1] * k if fv == "list-int-unit" else [rng.choice([1, 2, 3]) for _ in range(k)]
+        if fv != "list-int-unit" and all(w == 1 for w in widths):
+            widths[rng.randrange(k)] = rng.choice([2, 3])
+        for w in widths:
+            vals.append(vals[-1] + w)
+        return dict(kind="list", v=[int(v) for v in vals], flavour=fv)
+    pool = set()
+    while len(pool) < k + 1:
+        if fv == "list-qedges" and flat and rng.random() < 0.7:
+            pool.add(float(rng.choice(flat)))  # an edge bit-equal to a particle's value
+        elif fv != "list-qedges" and flat and rng.random() < 0.25:
+            pool.add(float(rng.choice(flat)))
+        else:
+            x = rng.randint(0 if positive else -24, 40) / 8.0
+            if fv == "list-mixed" and x == int(x):
+                pool.add(int(x))
+            else:
+                pool.add(float(x))
+    vals = _dedup_sorted(pool)
+    if fv == "list-mixed":
+        # make sure both types occur, and that two neighbouring ints span a bin wider than 1 now and then
+        if not any(isinstance(v, int) for v in vals):
+            vals = _dedup_sorted([int(math.floor(float(vals[0]))) - rng.choice([1, 2])] + vals)
+        if not any(isinstance(v, float) for v in vals):
+            vals = _dedup_sorted(vals + [float(vals[-1]) + 0.5])
+    else:
+        vals = [float(v) for v in vals]
+    return dict(kind="list", v=vals, flavour=fv)
 
 
 def gen_width(rng, yvals):
@@ -209,6 +312,21 @@ def empty_patterns():
     for n in range(1, 5):
         for mask in range(2 ** n):
             out.append([[] if (mask >> i) & 1 else [list(p) for p in base[i]] for i in range(n)])
+    return out
+
+
+def type_flavour_block():
+    """deterministic block: every binning flavour x every method on a fixed three-event sample with an
+    empty middle event; the values are chosen so that bins wider than 1 are populated"""
+    evs = [[[1.5, 0.0, 0.5, 2.0, 3.0, 1.0], [2.5, 0.0, -1.0, 3.0, 3.0, -1.0], [0.5, 0.0, 0.0, 1.0, 2.0, 0.0]], [],
+           [[3.25, 0.0, 2.0, 4.0, 4.0, 2.0], [1.0, 0.0, -0.25, 1.25, 2.0, -0.5]]]
+    fixed = {"list-int": {True: [0, 1, 2, 4], False: [-2, 0, 2]}, "ndarray-int": {True: [0, 2, 5], False: [-3, -1, 0, 3]},
+             "list-npint-items": {True: [0, 1, 4], False: [-2, -1, 2]}}
+    out = []
+    for meth in DN_METHODS:
+        positive = meth in ("dNdpT", "dNdmT")
+        for fv in sorted(set(BIN_FLAVOURS)):
+            out.append((evs, meth, fv, fixed.get(fv, {}).get(positive)))
     return out
 
 
@@ -245,10 +363,13 @@ def correspond(ctx):
             ctx.brk("correspondence-broken", what, **kw)
         ctx.cov["correspondence_mismatches"] = nbrk[0]
 
-    ctx.rule = ("random samples: 0-5 events incl. empty ones at any position (plus every placement of empty events "
-                "for 1-4 events), 0-10 particles, dyadic and generic kinematics, rarely an unset attribute; binnings "
-                "default / tuple / explicit non-uniform lists with edges bit-equal to particle values and int/float "
-                "mixes; window widths incl. a particle exactly on the edge and invalid widths; three rapidity flavours. "
+    ctx.rule = ("random samples: 0-6 events incl. empty ones at any position (plus every placement of empty events "
+                "for 1-4 events; several empty events incl. the last; the same list object twice; events equal as lists), "
+                "0-10 particles, dyadic and generic kinematics, rarely an unset attribute; binnings stratified over "
+                "default / tuple (int, float, mixed limits) / explicit lists (all-int with widths 1-3, float, mixed, edges "
+                "bit-equal to particle values, numpy-scalar items) / numpy arrays (plus every flavour x method on a fixed "
+                "sample); every second sample runs all its calls on ONE re-used BulkObservables object; window widths incl. "
+                "a particle exactly on the edge and invalid widths; three rapidity flavours. "
                 "non-trivial (dN/dx) = >=2 events, some bin filled, and an empty event or a value outside the range or "
                 "exactly on an edge; (mid) = >=2 events, a particle inside and one outside the window or an empty event")
     ctx.cov["tie"] = "C (correspondence through lean/drivers/C14.lean); no translator"
@@ -258,50 +379,78 @@ def correspond(ctx):
         "C14: the quantity of a particle is whatever Particle.rapidity/pT_abs/pseudorapidity/mT/spacetime_rapidity return (C08's subject)",
         "C14: 'input lists unmodified' and 'returned histogram can be written' are checked on the real code by sampling only "
         "(snapshot of identities and data bytes; write_to_file + parse), they are not Lean theorems",
+        "C14: binnings given as numpy arrays / lists of numpy ints are outside the documented API; a TypeError/ValueError for "
+        "them is accepted, a returned histogram is checked like any other",
     ]
-    samples = [(evs, "pattern") for evs in empty_patterns()]
-    for _ in range(ctx.n(170, 5000)):
-        samples.append((gen_events(rng), "random"))
+    samples = [(evs, None, "pattern", None) for evs in empty_patterns()]
+    for evs, meth, fv, v in type_flavour_block():
+        samples.append((evs, None, "flavour-block", (meth, fv, v)))
+    for _ in range(ctx.n(200, 5000)):
+        evs, alias, tag = gen_events(rng)
+        samples.append((evs, alias, tag, None))
     lines, meta = [], []
-    for evs, origin in samples:
-        pl = make_particles(evs)
+    for idx, (evs, alias, tag, forced) in enumerate(samples):
+        pl = make_particles(evs, alias)
         snap = snapshot(pl)
-        # --- differential yields
-        for meth, qname in DN_METHODS.items():
-            q = quantity_values(pl, qname)
-            b = gen_bins(rng, meth, q)
+        reuse = idx % 2 == 1
+        bo = new_bo(pl) if reuse else None
+        ctx.count(f"sample/{tag}/{'reused-object' if reuse else 'fresh-objects'}")
+        # --- differential yields (in a re-used object one method is called a second time at the end)
+        dn_calls = list(DN_METHODS)
+        if forced:
+            dn_calls = [forced[0]]
+        elif reuse:
+            rng.shuffle(dn_calls)
+            dn_calls.append(rng.choice(dn_calls))
+        for meth in dn_calls:
+            q = quantity_values(pl, DN_METHODS[meth])
+            if forced and forced[2] is not None:
+                b = dict(kind="list", v=list(forced[2]), flavour=forced[1])
+            else:
+                b = gen_bins(rng, meth, q, forced[1] if forced else None)
             edges = edges_of(meth, b)
             if not edges_contract(meth, b, edges):
                 brk(f"np.linspace contract violated for {b}", case=dict(bins=b))
                 continue
-            real = call_dn(pl, meth, b)
+            real = call_dn(pl, meth, b, bo)
+            if rejected(b, real):
+                ctx.count(f"{meth}/bins={b['flavour']}/refused-by-validation")
+                ctx.case(("dn-refused", meth, json.dumps(b)), False)
+                continue
             if real[0] == "ok":
                 hb = [float(x) for x in real[2].bin_boundaries()]
                 if hb != edges:
                     brk(f"{meth}: histogram edges {hb} differ from the binning's edges {edges}",
-                            case=dict(events=evs, method=meth, bins=b))
+                        case=dict(events=evs, alias=alias, method=meth, bins=b))
             lines.append(f"dndx\t{fl(edges)}\t{enc_dn_events(q)}")
-            meta.append(("dn", meth, b, evs, q, edges, real[:2]))
-        # --- mid-rapidity functions
-        flavour = rng.choice(FLAVOURS)
-        y = quantity_values(pl, flavour)
-        w = gen_width(rng, y)
-        use_default = flavour == "rapidity" and rng.random() < 0.1
-        if use_default:
-            w = 1.0
-        for meth, xname in MID_METHODS.items():
-            x = quantity_values(pl, xname) if xname else [[0.0 for _ in e] for e in y]
-            real = call_mid(pl, meth, w, flavour, use_default)
-            op = "yield" if xname is None else "mean"
-            lines.append(f"{op}\t{f2h(float(w))}\t{enc_mid_events(y, x)}")
-            meta.append(("mid", meth, dict(y_width=w, quantity=flavour, default_args=use_default), evs, (y, x), None, real))
+            meta.append(("dn", meth, b, evs, alias, q, edges, real[:2], reuse))
+        if not forced:
+            # --- mid-rapidity functions
+            flavour = rng.choice(FLAVOURS)
+            y = quantity_values(pl, flavour)
+            w = gen_width(rng, y)
+            use_default = flavour == "rapidity" and rng.random() < 0.1
+            if use_default:
+                w = 1.0
+            mid_calls = list(MID_METHODS.items())
+            if reuse:  # a re-used object answers every mid-rapidity question twice, in random order
+                mid_calls = mid_calls * 2
+                rng.shuffle(mid_calls)
+            for meth, xname in mid_calls:
+                x = quantity_values(pl, xname) if xname else [[0.0 for _ in e] for e in y]
+                real = call_mid(pl, meth, w, flavour, use_default, bo)
+                op = "yield" if xname is None else "mean"
+                lines.append(f"{op}\t{f2h(float(w))}\t{enc_mid_events(y, x)}")
+                meta.append(("mid", meth, dict(y_width=w, quantity=flavour, default_args=use_default), evs, alias, (y, x),
+                             None, real, reuse))
         if snapshot(pl) != snap:
             brk("the particle lists were modified by a BulkObservables call (the model is a pure function)",
-                    case=dict(events=evs))
+                case=dict(events=evs, alias=alias))
     outs = common.run_driver("C14", lines)
-    for (kind, meth, arg, evs, vals, edges, real), out in zip(meta, outs):
+    for (kind, meth, arg, evs, alias, vals, edges, real, reuse), out in zip(meta, outs):
         nev = len(evs)
         has_empty = any(len(e) == 0 for e in evs)
+        how = "re-used object" if reuse else "fresh object"
         if kind == "dn":
             q = vals
             if out.startswith("ok "):
@@ -320,15 +469,19 @@ def correspond(ctx):
             outside = any(v < edges[0] or v >= edges[-1] for v in flat)
             on_edge = any(v in edges for v in flat)
             nontriv = nev >= 2 and filled and (has_empty or outside or on_edge)
-            ctx.case(("dn", meth, json.dumps(arg), json.dumps(evs)), nontriv,
+            ctx.case(("dn", meth, json.dumps(arg), json.dumps(evs), json.dumps(alias), reuse), nontriv,
                      sample=dict(op=meth, bins=arg, events=evs, code=real[:2], model=out) if nontriv else None)
-            ctx.count(f"{meth}/bins={arg['kind']}/events={min(nev, 2)}{'+' if nev > 2 else ''}/"
-                      f"{'empty-event' if has_empty else 'no-empty'}/{real[0]}")
+            ctx.count(f"{meth}/bins={arg['flavour']}/{real[0]}")
+            ctx.count(f"dN/events={min(nev, 2)}{'+' if nev > 2 else ''}/{'empty-event' if has_empty else 'no-empty'}")
             if on_edge:
                 ctx.count("dN/value-bit-equal-to-edge")
+            if arg["kind"] == "list" and real[0] == "ok" and all(isinstance(v, int) for v in arg["v"]):
+                wide = [i for i, (a, b_) in enumerate(zip(arg["v"], arg["v"][1:])) if b_ - a > 1]
+                if any(real[1][i] != 0 for i in wide):
+                    ctx.count("dN/all-int-edges/populated-bin-wider-than-1")
             if not ok:
-                brk(f"{meth}: code {real[:2]} vs model {out}",
-                        case=dict(events=evs, method=meth, bins=arg))
+                brk(f"{meth} ({how}): code {real[:2]} vs model {out}",
+                    case=dict(events=evs, alias=alias, method=meth, bins=arg, reused_object=reuse))
         else:
             y, x = vals
             if out.startswith("ok "):
@@ -346,13 +499,13 @@ def correspond(ctx):
             inside = any(v == v and abs(v) <= w / 2 for v in flat)
             outside_w = any(not (v == v and abs(v) <= w / 2) for v in flat)
             nontriv = nev >= 2 and inside and (outside_w or has_empty)
-            ctx.case(("mid", meth, json.dumps(arg), json.dumps(evs)), nontriv,
+            ctx.case(("mid", meth, json.dumps(arg), json.dumps(evs), json.dumps(alias), reuse), nontriv,
                      sample=dict(op=meth, args=arg, events=evs, code=real, model=out) if nontriv and meth != "mid_rapidity_yield" else None)
             ctx.count(f"{meth}/{arg['quantity']}/events={min(nev, 2)}{'+' if nev > 2 else ''}/"
                       f"{'empty-first' if nev and not evs[0] else 'empty-event' if has_empty else 'no-empty'}/{real[0]}")
             if not ok:
-                brk(f"{meth}({arg}): code {real} vs model {out}",
-                        case=dict(events=evs, method=meth, args=arg))
+                brk(f"{meth}({arg}) ({how}): code {real} vs model {out}",
+                    case=dict(events=evs, alias=alias, method=meth, args=arg, reused_object=reuse))
 
 
 # ------------------------------------------------------------------ independent reference (exact rationals)
@@ -407,9 +560,10 @@ def check_write(h, tmpdir):
     return None
 
 
-def oracle_dn(evs, meth, b, tmpdir=None):
-    """None or (key, what, detail): the property on the real code for one differential-yield call"""
-    pl = make_particles(evs)
+def oracle_dn(evs, meth, b, tmpdir=None, alias=None, shared=None):
+    """None or (key, what, detail): the property on the real code for one differential-yield call.
+    shared = (particle lists, BulkObservables object) to run the call on a long-lived object."""
+    pl, bo = shared if shared else (make_particles(evs, alias), None)
     q = quantity_values(pl, DN_METHODS[meth])
     if any(v != v or abs(v) == float("inf") for e in q for v in e):
         return None  # the statement speaks about particles that have the quantity
@@ -417,18 +571,21 @@ def oracle_dn(evs, meth, b, tmpdir=None):
     if not edges_contract(meth, b, edges):
         return None
     snap = snapshot(pl)
-    real = call_dn(pl, meth, b)
+    real = call_dn(pl, meth, b, bo)
     if snapshot(pl) != snap:
         return (f"input-modified/{meth}", f"{meth} modified the particle lists passed in", {})
+    if rejected(b, real):
+        return None
+    btxt = f"{b.get('flavour', b['kind'])} {bins_arg(b)!r}"
     if real[0] != "ok":
-        return (f"{meth}/raises-{real[1]}", f"{meth}({bins_arg(b)}) raises {real[1]} on {len(evs)} events", dict(observed=real[:2]))
+        return (f"{meth}/raises-{real[1]}", f"{meth}({btxt}) raises {real[1]} on {len(evs)} events", dict(observed=real[:2]))
     want = ref_dn(q, edges)
     got = real[1]
     if len(got) != len(want):
         return (f"{meth}/number-of-bins", f"{len(got)} bins returned, {len(want)} expected", {})
     for i, (g, wv) in enumerate(zip(got, want)):
         if not close(g, float(wv), rel=1e-9, abs_=1e-300):
-            return (f"{meth}/bin-value", f"{meth} bin {i} [{edges[i]},{edges[i+1]}): code {g!r}, "
+            return (f"{meth}/bin-value", f"{meth}({btxt}) bin {i} [{edges[i]},{edges[i+1]}): code {g!r}, "
                                          f"count/N_events/width = {float(wv)!r}", dict(bin=i, observed=got, expected=[float(x) for x in want]))
     # corollary with the histogram's own widths
     h = real[2]
@@ -443,8 +600,8 @@ def oracle_dn(evs, meth, b, tmpdir=None):
     return None
 
 
-def oracle_mid(evs, meth, w, flavour):
-    pl = make_particles(evs)
+def oracle_mid(evs, meth, w, flavour, alias=None, shared=None):
+    pl, bo = shared if shared else (make_particles(evs, alias), None)
     try:
         y = quantity_values(pl, flavour)
         x = quantity_values(pl, MID_METHODS[meth]) if MID_METHODS[meth] else None
@@ -455,7 +612,7 @@ def oracle_mid(evs, meth, w, flavour):
     if not (isinstance(w, (int, float)) and w > 0):
         return None
     snap = snapshot(pl)
-    real = call_mid(pl, meth, w, flavour)
+    real = call_mid(pl, meth, w, flavour, bo=bo)
     if snapshot(pl) != snap:
         return (f"input-modified/{meth}", f"{meth} modified the particle lists passed in", {})
     first_empty = len(evs) > 0 and len(evs[0]) == 0
@@ -476,19 +633,35 @@ def oracle_mid(evs, meth, w, flavour):
     return None
 
 
-def run_call(evs, call, tmpdir=None):
+def run_call(evs, call, tmpdir=None, alias=None, shared=None):
     if call["method"] in DN_METHODS:
-        return oracle_dn(evs, call["method"], call["bins"], tmpdir)
-    return oracle_mid(evs, call["method"], call["y_width"], call["quantity"])
+        return oracle_dn(evs, call["method"], call["bins"], tmpdir, alias, shared)
+    return oracle_mid(evs, call["method"], call["y_width"], call["quantity"], alias, shared)
 
 
-def shrink(evs, call, key):
+def run_history(evs, history, alias=None, tmpdir=None):
+    """all calls of `history` in a row on ONE BulkObservables object; -> (index, result) of the first failing call"""
+    pl = make_particles(evs, alias)
+    shared = (pl, new_bo(pl))
+    for i, call in enumerate(history):
+        r = run_call(evs, call, tmpdir if call["method"] in DN_METHODS else None, alias, shared)
+        if r:
+            return i, r
+    return None
+
+
+def shrink(evs, call, key, alias=None, fails=None):
+    """delta-debugging on events, then particles (an aliased sample is first tried without the aliasing)"""
+    if fails is None:
+        def fails(c, al=None):
+            r = run_call(c, call, alias=al)
+            return r is not None and r[0] == key
+
+    if alias is not None:
+        if not fails(evs, None):
+            return evs, alias
+        alias = None
     cur = [[list(p) for p in e] for e in evs]
-
-    def fails(c):
-        r = run_call(c, call)
-        return r is not None and r[0] == key
-
     changed = True
     while changed:
         changed = False
@@ -508,7 +681,7 @@ def shrink(evs, call, key):
                     break
             if changed:
                 break
-    return cur
+    return cur, None
 
 
 # ------------------------------------------------------------------ search on the real code
@@ -524,44 +697,114 @@ def search(ctx, budget_s):
     n = 0
     tmpdir = tempfile.mkdtemp(prefix="c14_", dir="/tmp")
 
-    def report(evs, call, r, do_shrink=True):
+    def report(evs, alias, call, r, do_shrink=True):
         if r[0] in seen:
             return
         seen.add(r[0])
         if do_shrink and r[0] != WRITE_KEY:
-            small = shrink(evs, call, r[0])
-            r2 = run_call(small, call)
+            small, al = shrink(evs, call, r[0], alias)
+            r2 = run_call(small, call, alias=al)
             if r2 and r2[0] == r[0]:
-                evs, r = small, r2
-        ctx.violation(r[0], r[1], dict(input=dict(events=evs, call=call), detail=r[2],
+                evs, alias, r = small, al, r2
+        ctx.violation(r[0], r[1], dict(input=dict(events=evs, alias=alias, call=call), detail=r[2],
                                        how_to_replay="./check C14 --replay <this file>"))
+
+    def report_reuse(evs, alias, history, r):
+        key = f"instance-reuse-{history[-1]['method']}: {r[0]}"
+        if key in seen:
+            return
+        seen.add(key)
+        # drop earlier calls that are not needed for the failure
+        hist = list(history)
+        i = 0
+        while i < len(hist) - 1:
+            cand = hist[:i] + hist[i + 1:]
+            rr = run_history(evs, cand, alias)
+            if rr and rr[0] == len(cand) - 1 and rr[1][0] == r[0]:
+                hist = cand
+            else:
+                i += 1
+
+        def still(c, al=None):
+            rr = run_history(c, hist, al)
+            return bool(rr) and rr[0] == len(hist) - 1 and rr[1][0] == r[0] and run_call(c, hist[-1], alias=al) is None
+
+        evs, alias = shrink(evs, None, None, alias, fails=still)
+        rr = run_history(evs, hist, alias)
+        if rr:
+            r = rr[1]
+        ctx.violation(key, f"a BulkObservables object that already served {len(hist) - 1} call(s) gives a wrong answer where "
+                           f"a fresh object is right: {r[1]}",
+                      dict(input=dict(events=evs, alias=alias, history=hist), detail=r[2],
+                           how_to_replay="./check C14 --replay <this file>  (runs the whole history on one object)"))
 
     try:
         for case in corpus():
-            r = run_call(case["events"], case["call"], tmpdir if case["call"]["method"] in DN_METHODS else None)
+            if "history" in case:
+                rr = run_history(case["events"], case["history"], case.get("alias"), tmpdir)
+                if rr:
+                    bad = case["history"][rr[0]]
+                    if run_call(case["events"], bad, alias=case.get("alias")):  # a fresh object fails as well
+                        report(case["events"], case.get("alias"), bad, rr[1], do_shrink=False)
+                    else:
+                        report_reuse(case["events"], case.get("alias"), case["history"][:rr[0] + 1], rr[1])
+            else:
+                r = run_call(case["events"], case["call"], tmpdir if case["call"]["method"] in DN_METHODS else None,
+                             alias=case.get("alias"))
+                if r:
+                    report(case["events"], case.get("alias"), case["call"], r, do_shrink=False)
             n += 1
+        # every binning flavour x method on the fixed sample
+        for evs, meth, fv, v in type_flavour_block():
+            pl = make_particles(evs)
+            b = dict(kind="list", v=list(v), flavour=fv) if v is not None else gen_bins(rng, meth, quantity_values(pl, DN_METHODS[meth]), fv)
+            r = oracle_dn(evs, meth, b, tmpdir)
+            ctx.case(("oracle-flavour", meth, json.dumps(b)), True)
+            ctx.count(f"oracle/{meth}/bins={fv}")
             if r:
-                report(case["events"], case["call"], r, do_shrink=False)
+                report(evs, None, dict(method=meth, bins=b), r)
         pats = empty_patterns()
         limit = 20000 if ctx.thorough else 1500
         while time.time() - t0 < budget_s and n < limit:
-            evs = pats[n % len(pats)] if n < 2 * len(pats) and n % 2 == 0 else gen_events(rng, allow_unset=False)
-            pl = make_particles(evs)
+            if n < 2 * len(pats) and n % 2 == 0:
+                evs, alias, tag = pats[n // 2 % len(pats)], None, "pattern"
+            else:
+                evs, alias, tag = gen_events(rng, allow_unset=False)
+            pl = make_particles(evs, alias)
+            calls = []
             for meth, qname in DN_METHODS.items():
-                b = gen_bins(rng, meth, quantity_values(pl, qname))
-                call = dict(method=meth, bins=b)
-                r = oracle_dn(evs, meth, b, tmpdir)
-                ctx.case(("oracle", meth, json.dumps(b), json.dumps(evs)), len(evs) >= 2)
-                if r:
-                    report(evs, call, r)
+                calls.append(dict(method=meth, bins=gen_bins(rng, meth, quantity_values(pl, qname))))
             flavour = rng.choice(FLAVOURS)
             w = gen_width(rng, quantity_values(pl, flavour))
             for meth in MID_METHODS:
-                call = dict(method=meth, y_width=w, quantity=flavour)
-                r = oracle_mid(evs, meth, w, flavour)
-                ctx.case(("oracle", meth, w, flavour, json.dumps(evs)), len(evs) >= 2)
+                calls.append(dict(method=meth, y_width=w, quantity=flavour))
+            # fresh object per call
+            fresh_ok = []
+            for call in calls:
+                r = run_call(evs, call, tmpdir if call["method"] in DN_METHODS else None, alias)
+                ctx.case(("oracle", json.dumps(call), json.dumps(evs), json.dumps(alias)), len(evs) >= 2)
+                if call["method"] in DN_METHODS:
+                    ctx.count(f"oracle/{call['method']}/bins={call['bins']['flavour']}")
+                fresh_ok.append(r is None)
                 if r:
-                    report(evs, call, r)
+                    report(evs, alias, call, r)
+            ctx.count(f"oracle-sample/{tag}")
+            # every second sample: the same calls in a row, shuffled and repeated, on ONE long-lived object
+            if n % 2 == 1:
+                order = list(range(len(calls))) * 2          # every call twice ...
+                order += [rng.randrange(len(calls))] * 2      # ... and one of them four times
+                rng.shuffle(order)
+                pl2 = make_particles(evs, alias)
+                shared = (pl2, new_bo(pl2))
+                history = []
+                for k in order:
+                    history.append(calls[k])
+                    r = run_call(evs, calls[k], tmpdir if calls[k]["method"] in DN_METHODS else None, alias, shared)
+                    ctx.case(("oracle-reuse", json.dumps(history), json.dumps(evs)), len(evs) >= 2)
+                    if r and fresh_ok[k]:
+                        report_reuse(evs, alias, history, r)
+                        break
+                ctx.count("oracle-sample/reused-object-history")
             n += 1
     finally:
         for f in os.listdir(tmpdir):
@@ -579,7 +822,14 @@ def replay(ctx, path):
         return 1
     tmpdir = tempfile.mkdtemp(prefix="c14_", dir="/tmp")
     try:
-        r = run_call(inp["events"], inp["call"], tmpdir if inp["call"]["method"] in DN_METHODS else None)
+        if "history" in inp:
+            rr = run_history(inp["events"], inp["history"], inp.get("alias"), tmpdir)
+            r = rr[1] if rr else None
+            if rr:
+                print(f"[C14] call {rr[0] + 1} of {len(inp['history'])} on the re-used object fails")
+        else:
+            r = run_call(inp["events"], inp["call"], tmpdir if inp["call"]["method"] in DN_METHODS else None,
+                         alias=inp.get("alias"))
     finally:
         for f in os.listdir(tmpdir):
             os.unlink(os.path.join(tmpdir, f))
